@@ -60,7 +60,13 @@ fn decode(ctx: &Ctx, tape: &[u32], disk: Option<DiskCfg>) -> OrdCase {
     };
     // this property is about ORDER BY / LIMIT / OFFSET: make sure most queries have them
     if cfg.distinct_complex || !query.distinct {
-        if query.order_by.is_empty() && t.chance(4, 5) {
+        // (not above a GROUP BY over an ordered derived table while that finding is open)
+        let over_sortagg = !query.group_by.is_empty() && query.from.iter().any(|f| matches!(&f.source, Source::Derived(q) if !q.order_by.is_empty()));
+        // (nor above an aggregation over a derived table with aggregate outputs: column-not-found family)
+        let aggregating = !query.group_by.is_empty() || query.select.iter().any(|(e, _)| matches!(e, E::Agg(..)));
+        let over_derived_agg = !cfg.derived_expr_items && aggregating && query.from.iter().any(|f| matches!(&f.source, Source::Derived(q) if q.select.iter().any(|(e, _)| matches!(e, E::Agg(..)))));
+        let over_sortagg = over_sortagg || over_derived_agg;
+        if query.order_by.is_empty() && t.chance(4, 5) && ((cfg.order_over_derived_sortagg && !over_derived_agg) || !over_sortagg) {
             let nk = t.range(1, query.select.len().min(3));
             for _ in 0..nk {
                 let i = t.pick(query.select.len());
